@@ -170,6 +170,11 @@ type leaf struct {
 }
 
 func phiWeb(v ssa.Value) (phis map[*ssa.Phi]bool, leaves []leaf) {
+	return phiWebStop(v, nil)
+}
+
+// phiWebStop is phiWeb that treats the phis in stop as leaves.
+func phiWebStop(v ssa.Value, stop map[*ssa.Phi]bool) (phis map[*ssa.Phi]bool, leaves []leaf) {
 	phis = map[*ssa.Phi]bool{}
 	var rec func(v ssa.Value)
 	rec = func(v ssa.Value) {
@@ -179,7 +184,7 @@ func phiWeb(v ssa.Value) (phis map[*ssa.Phi]bool, leaves []leaf) {
 		}
 		phis[p] = true
 		for k, e := range p.Edges {
-			if q, ok := e.(*ssa.Phi); ok {
+			if q, ok := e.(*ssa.Phi); ok && !stop[q] {
 				rec(q)
 				continue
 			}
